@@ -265,6 +265,15 @@ def parse_args(args: List[str]) -> Tuple[ArgumentParser, Namespace]:
 def main():
     parser, args = parse_args(sys.argv[1:])
 
+    if max(args.interval) > 2 ** 31:
+        # BIP44 address index is not hardened - indexes above 2**31 - 1
+        # would produce hardened (m/44'/0'/0'/0/i') address rows
+        parser.error(
+            "Address index (non-hardened) has to be lower than {}".format(
+                2 ** 31
+            )
+        )
+
     if args.command == "new":
         wallet = PaperWallet.new_wallet(
             mnemonic_length=args.mnemonic_len,
